@@ -144,6 +144,10 @@ def run_case(rec: Recorder, case: dict[str, typing.Any]) -> None:
             # request must not depend on what the client converted or cached before
             for wp in case.get("warmup", []):
                 rec.mon("warmup_request")
+                if isinstance(wp, dict) and "lookup_override" in wp:
+                    # only a pool lookup for the same origin with a more generous per-lookup policy; no request
+                    client.connection_from_url(first_url, pool_kwargs={"retries": build_policy(wp["lookup_override"])})
+                    continue
                 try:
                     client.urlopen("GET", first_url, headers={"X-Keep": "k"}, **({} if wp == "unset" else {"retries": build_policy(wp)}))
                 except HTTPError:
@@ -151,7 +155,14 @@ def run_case(rec: Recorder, case: dict[str, typing.Any]) -> None:
             if case.get("warmup"):
                 server.log.clear()
                 server.failed.clear()
-            result = client.urlopen(case["method"], first_url, body=body, headers=hdrs, **kw)
+            if case.get("via_pool") and case["client"] == "manager":
+                # the caller takes the pool for the origin from the manager and uses it directly: the manager-level
+                # policy is that pool's default
+                from urllib3.util import parse_url as _pu
+
+                result = client.connection_from_url(first_url).urlopen(case["method"], _pu(first_url).request_uri, body=body, headers=hdrs, **kw)
+            else:
+                result = client.urlopen(case["method"], first_url, body=body, headers=hdrs, **kw)
         except BaseException as e:  # noqa: BLE001
             if isinstance(e, (KeyboardInterrupt, SystemExit)):
                 raise
@@ -310,6 +321,19 @@ def run_shard(ctx: Ctx, rec: Recorder) -> None:
                     case = {"client": client, "hops": hops, "loop": False, "policy_req": pol if placement == "request" else None, "policy_lvl2": pol if placement == "level2" else None, "method": "GET", "redirect_kw": True, "warmup": [w]}
                     rec.case(["warm", case])
                     run_case(rec, case)
+    # (i-d) a pool for the same origin was looked up earlier with a more generous override; the manager's own pool is then
+    # used directly
+    for pol in (False, 0, 1, {"redirect": 1}, {"redirect": 0, "raise_on_redirect": False}):
+        for gen in (5, {"redirect": 5}):
+            for code in (302, 307):
+                idx += 1
+                if not ctx.mine(idx):
+                    continue
+                hops = [{"code": code, "to": "A", "form": "path"}, {"code": code, "to": "A", "form": "path"}, {"code": code, "to": "A", "form": "path"}]
+                case = {"client": "manager", "hops": hops, "loop": False, "policy_req": None, "policy_lvl2": pol, "method": "GET", "redirect_kw": True, "warmup": [{"lookup_override": gen}], "via_pool": True}
+                rec.case(["via-pool", case])
+                rec.mon("manager_pool_after_override_lookup")
+                run_case(rec, case)
     # (ii) every Location form x code, two hops
     for form in FORMS + ["missing"]:
         for code in CODES:
